@@ -70,7 +70,9 @@ func c11RunningWait(r *kit.Run, idx int64, rng *rand.Rand) {
 			go func() { defer wg.Done(); _ = s.Start(context.Background()) }()
 			go func() {
 				defer wg.Done()
-				for k := 0; !s.Running() && k < 1_000_000; k++ {
+				// the premise is an observation of Running() == true; the
+				// owner's goroutine may be scheduled arbitrarily late
+				for !s.Running() {
 					kit.Yields(1)
 				}
 				done := make(chan struct{})
